@@ -604,7 +604,7 @@ def run_dft_case(ctx, B, desc, oracle_only=False):
             if surv and first_bad:
                 ctx.disagree(desc, 'first call of a fresh FFTW_MEASURE plan gave wrong values',
                              ans + ' (model: data survives planning)')
-        B.add('plan real={} hc={} fresh=1 destroys=1'.format(int(realdom), int(hc)), cbp)
+        B.add('plan fresh=1 destroys=1', cbp)
     line = 'dft num={} impl={} inv=0 plus={} hc={} real={} rshape={} axes={} x={}'.format(
         'x' if exact else 'f', mimpl, int(sign == '+'), int(hc), int(realdom), nl(shape), nl(axes), cl(x))
 
